@@ -53,6 +53,9 @@ def build(tier, seed):
             obs.append(assign_ob("O1.n5.p%d" % i, 5, ORACLE, WHAT, T, fixed=fx))
         for i, fx in enumerate(partitions(6, 3)):
             obs.append(assign_ob("O1.n6.p%d" % i, 6, ORACLE, WHAT, T, fixed=fx))
+        # the quantifier's n <= 7 (heights unbounded rather than in {1,2,3}); 512 flag-prefix partitions
+        for i, fx in enumerate(partitions(7, 4)):
+            obs.append(assign_ob("O1.n7.p%d" % i, 7, ORACLE, WHAT, 1500, fixed=fx))
     # O2: prefix stability (appending a row never changes earlier pages)
     for n in ((2, 3) if quick else (2, 3, 4)):
         obs.append(assign_ob(
